@@ -20,6 +20,9 @@ def nontrivial(line):
     f = _fields(line)
     if f.get("k") == "e2e":
         return ("e2e", f.get("pssm"), f.get("seq"), f.get("rr"), f.get("dt"), f.get("t")) if f.get("seq", "-") != "-" else None
+    if f.get("k") == "pad":
+        return ("pad", f.get("src"), f.get("sd"), f.get("bg"), f.get("L"), f.get("seq"), f.get("sm"), f.get("t"), f.get("pssm")) \
+            if int(f.get("L", "0")) > 0 else None
     if f.get("m", "-") == "-" and "h" not in f:
         return None
     return (f.get("k"), f.get("t"), f.get("R"), f.get("p"), f.get("h"), f.get("w"), hash(f.get("m")))
@@ -35,6 +38,26 @@ def histogram(line):
         keys.append("e2e:M=%d" % (f.get("pssm", "").count("/") + 1))
         if "rr" in f:
             keys.append("e2e:ranges(reused buffer)" + (":u8" if f.get("dt") == "u8" else ":f32"))
+        return keys
+    if k == "pad":
+        l = int(f.get("L", "0"))
+        m = f.get("pssm", "").count("/") + 1
+        keys.append("pad:src=" + f.get("src", "?"))
+        keys.append("pad:L<=%d" % (32 * ((l + 31) // 32)))
+        keys.append("pad:L%32=0" if l % 32 == 0 else "pad:L%32!=0")
+        if l < m:
+            keys.append("pad:L<M")
+        if f.get("src") == "sample":
+            keys.append("pad:bg=" + f.get("bg", "0"))
+        if f.get("src") == "new":
+            rows = 0 if f.get("sm", "-") == "-" else f["sm"].count("/") + 1
+            flat = "".join(f.get("sm", "").split("/")) if rows else ""
+            # linear index i = col * rows + row; cells of index >= L are the padding
+            pad = [flat[(i % rows) * 32 + i // rows] for i in range(l, rows * 32)] if rows else []
+            keys.append("pad:new:padding=" + ("none" if not pad else "wildcards" if all(c == "4" for c in pad)
+                                              else "symbols" if all(c != "4" for c in pad) else "mixed"))
+            if rows > (l + 31) // 32:
+                keys.append("pad:new:spare-rows")
         return keys
     r = int(f.get("R", "0"))
     for b in (0, 1, 2, 8, 64, 300, 1000, 3000, 32768, 70000):
